@@ -281,7 +281,7 @@ func dedupSchema(d *xDoc) (removed []string) {
 
 func main() {
 	c := vk.Init("C12")
-	c.Rule("programs = schemas run through cmd/fixgen built from the working tree: the two shipped schemas (source/fix44.xml; generator/testdata/fix.4.4.xml with its deliberate duplicate removed) and schemas derived by a seeded mutator (remove/reorder/add/rename/renumber members and fields, remove messages, toggle required, change a type's cast, introduce duplicate field numbers or message types, add a repeating group at nesting depth 3; six fixed cast changes that cover Raw and Time), each with a relative, nested or absolute output directory. Per accepted schema three stages: (1) go build of the emitted package; (2) every constant, constructor signature, accessor signature, accessor item index and member list read back with go/parser and compared with the harness's own XML reader; (3) a behavioural driver derived from the XML (not from the emitted code) executed against the compiled package: each setter puts exactly its own tag=value on the wire, getters return it, all-populated wire order = schema order, populating constructors carry exactly the required members, group AddEntry/Entries round-trip, BeginString/MsgType. Plus byte-identical regeneration, identical output across output directories (also when the generator is used as a library and one parsed schema object is generated from three times), rejection of duplicate numbers/msgtypes, and tests/fix44 vs fresh generation as declaration multisets. distinct = distinct schema texts; non-trivial = differs from a shipped schema by at least one mutation")
+	c.Rule("programs = schemas run through cmd/fixgen built from the working tree: the two shipped schemas (source/fix44.xml; generator/testdata/fix.4.4.xml with its deliberate duplicate removed) and schemas derived by a seeded mutator (remove/reorder/add/rename/renumber members and fields, remove messages, toggle required, change a type's cast, introduce duplicate field numbers or message types, add a repeating group at nesting depth 3; six fixed cast changes that cover Raw and Time), each with a relative, nested or absolute output directory. Per accepted schema three stages: (1) go build of the emitted package; (2) every constant, constructor signature, accessor signature, accessor item index and member list read back with go/parser and compared with the harness's own XML reader; (3) a behavioural driver derived from the XML (not from the emitted code) executed against the compiled package: each setter puts exactly its own tag=value on the wire, getters return it, all-populated wire order = schema order, populating constructors carry exactly the required members, group AddEntry/Entries round-trip, BeginString/MsgType. Plus byte-identical regeneration (also 24 generations of a schema in which two components declare a group of the same name with different members), identical output across output directories (also when the generator is used as a library and one parsed schema object is generated from three times), rejection of duplicate numbers/msgtypes, and tests/fix44 vs fresh generation as declaration multisets. distinct = distinct schema texts; non-trivial = differs from a shipped schema by at least one mutation")
 	c.Assume("translation validation by execution on sampled schemas; the harness's XML reader and type-mapping reader are the trusted base; mutations never touch the fields the session pipelines' typed interfaces depend on")
 	work := c.WorkDir
 	if work == "" {
@@ -498,6 +498,75 @@ func main() {
 		}
 	}
 	c.Count("regenerations_compared", int64(len(sets)))
+	// determinism on a schema in which two components declare a repeating group of the same name with different
+	// members (the generated group type is shared): 24 generations must give one and the same package
+	if len(bases) > 0 {
+		d, tm, to := clone(bases[0])
+		var host *xContainer
+		has := false
+		for _, cc := range d.Components {
+			if cc.Name == "InstrumentLeg" {
+				host = cc
+			}
+			for _, k := range cc.Kids {
+				if k.XMLName.Local == "group" && k.Name == "NoUnderlyingStips" {
+					has = true
+				}
+			}
+		}
+		if host != nil && has {
+			host.Kids = append(host.Kids, &xMember{XMLName: xml.Name{Local: "group"}, Name: "NoUnderlyingStips", Required: "N", Kids: []*xMember{
+				{XMLName: xml.Name{Local: "field"}, Name: "UnderlyingStipType", Required: "N"},
+			}})
+			sdir := filepath.Join(det, "shared-group")
+			os.MkdirAll(sdir, 0o755)
+			sschema, stypes := filepath.Join(sdir, "schema.xml"), filepath.Join(sdir, "types.xml")
+			if err := writeDoc(d, sschema); err == nil {
+				writeTypes(tm, to, stypes)
+				const runs = 24
+				outs := make([]map[string]string, runs)
+				errs := make([]string, runs)
+				var swg sync.WaitGroup
+				ssem := make(chan struct{}, 8)
+				for k := 0; k < runs; k++ {
+					swg.Add(1)
+					ssem <- struct{}{}
+					go func(k int) {
+						defer swg.Done()
+						defer func() { <-ssem }()
+						od := filepath.Join(sdir, fmt.Sprintf("run%d", k), "fix44")
+						if out, err := run(sdir, fixgen, "-o", od, "-t", stypes, "-s", sschema); err != nil {
+							errs[k] = out
+							return
+						}
+						outs[k], _ = readDir(od)
+					}(k)
+				}
+				swg.Wait()
+				c.Count("disagreements_checked", runs)
+				c.Count("generations_of_a_schema_with_a_group_name_shared_by_two_components", runs)
+				failed := 0
+				for k := range outs {
+					if errs[k] != "" {
+						failed++
+					}
+				}
+				switch {
+				case failed == runs:
+					c.Count("shared_group_schema_refused_by_the_generator(not judged)", 1)
+				case failed > 0:
+					c.Violate("C12/output-differs-between-runs-or-directories/shared-group-name", fmt.Sprintf("a schema in which InstrumentLeg and UnderlyingStipulations both declare group NoUnderlyingStips: %d of %d generations failed, the others succeeded", failed, runs), nil)
+				default:
+					for k := 1; k < runs; k++ {
+						if !sameFiles(outs[0], outs[k]) {
+							c.Violate("C12/output-differs-between-runs-or-directories/shared-group-name", fmt.Sprintf("a schema in which InstrumentLeg and UnderlyingStipulations both declare group NoUnderlyingStips (with different members): generation #0 and #%d differ: %s", k, firstDiff(outs[0], outs[k])), nil)
+							break
+						}
+					}
+				}
+			}
+		}
+	}
 	// the generator used as a library: one parsed schema object, three generations from it
 	if len(sets) > 0 {
 		lmod := filepath.Join(det, "libmod")
